@@ -41,7 +41,8 @@ ALLOWED_CONSTRUCTS = {"import", "metadata", "start", "header", "comment", "rende
                       "join-marker", "jump", "stmt", "choice", "join-choice", "text", "glue", "blank", "other-at"}
 BLOCK_CONSTRUCTS = {"py-block", "if-block", "for-block", "join-block"}
 
-ALARM_S = 10
+ALARM_S = 5
+MAX_TIMEOUTS = 4      # after that many hangs the remaining inputs are not compiled (each hang costs ALARM_S)
 
 
 # ------------------------------------------------------------------------------------------------
@@ -848,11 +849,16 @@ def run(tier: str, seed: int) -> int:
 
     # ---------------- (c) totality oracle, (d) C12 validator, and the cases of (b) ----------------
     pterms, pmeta = [], []
-    skipped = {"block-construct": 0, "non-ascii": 0, "framework-or-legacy": 0, "not-diagnostic-or-value": 0}
+    skipped = {"block-construct": 0, "non-ascii": 0, "framework-or-legacy": 0, "outside-the-model": 0}
+    n_timeouts = 0
     for fam, ls in inputs:
         text = "\n".join(ls)
         ls = text.split("\n")                     # a generated line may itself contain a newline
+        if n_timeouts >= MAX_TIMEOUTS:
+            chk.notes["aborted_after_timeouts"] = f"{n_timeouts} inputs hung; the remaining inputs were not compiled"
+            break
         oc, pr = compile_real(text)
+        n_timeouts += oc[0] == "timeout"
         dist["families"][fam] = dist["families"].get(fam, 0) + 1
         cls = oc[0] if oc[0] != "other" else "other:" + oc[1]
         dist["outcomes"][cls] = dist["outcomes"].get(cls, 0) + 1
@@ -868,7 +874,7 @@ def run(tier: str, seed: int) -> int:
         if oc[0] == "timeout":
             chk.report(f"timeout:{shape_tag or fam}", f"compile_string did not return within {ALARM_S}s", replay)
         elif oc[0] == "other":
-            chk.report(f"internal-error:{oc[1]}:{oc[2]}", f"compile_string raised {oc[1]} (bottom frame {oc[2]}) on a {fam} input", replay)
+            chk.report(f"internal-error:{oc[1]}:{oc[2]}", f"compile_string raised {oc[1]} (in {oc[2]}) on a {fam} input", replay)
         for mode, src, exn in pr.oracle_escapes:
             chk.notes.setdefault("oracle_assumption_escapes", {}).setdefault(f"ast.parse[{mode}]:{exn}", 0)
             chk.notes["oracle_assumption_escapes"][f"ast.parse[{mode}]:{exn}"] += 1
@@ -885,8 +891,8 @@ def run(tier: str, seed: int) -> int:
         if not C.is_ascii(text):
             skipped["non-ascii"] += 1
             continue
-        if oc[0] in ("timeout", "other") or pr.oracle_escapes:
-            skipped["not-diagnostic-or-value"] += 1     # reported above; the model has no such outcome to compare
+        if oc[0] == "timeout" or (oc[0] == "other" and oc[1] == "RecursionError") or pr.oracle_escapes:
+            skipped["outside-the-model"] += 1     # reported above; stack depth and hangs are not outcomes of the model
             continue
         try:
             pterms.append(pcase_term(ls, pr, oc))
